@@ -37,3 +37,4 @@ def check(ctx):
     scopes.rule_refuses_only_when_full(ctx, facts, "R7")
     scopes.rule_span_lines_innermost_only(ctx, facts, "R8")
     scopes.rule_scope_state_restored(ctx, facts, "R9")
+    scopes.rule_local_context_is_the_stack(ctx, facts, "R9")
